@@ -3,7 +3,7 @@ contract modules that must be loaded to decide it."""
 PROPS = {
     'C12': ['contracts.c12_cbc_check', 'contracts.recordlayer'],
     'C01': ['contracts.c12_cbc_check', 'contracts.recordlayer', 'contracts.sendmsg', 'contracts.m2_posthandshake', 'contracts.m2_recordio', 'contracts.transport'],
-    'C02': ['contracts.c12_cbc_check', 'contracts.recordlayer', 'contracts.m2_recordlayer', 'contracts.m2_recordio', 'contracts.m2_getmsg', 'contracts.defragmenter'],
+    'C02': ['contracts.c12_cbc_check', 'contracts.recordlayer', 'contracts.m2_recordlayer', 'contracts.m2_recordio', 'contracts.m2_getmsg', 'contracts.defragmenter', 'contracts.ciphers'],
     'C18': ['contracts.sessioncache'],
     'C19': ['contracts.settings', 'contracts.m2_server'],
     'C20': ['contracts.suites', 'contracts.m2_client'],
@@ -11,13 +11,13 @@ PROPS = {
     'C05': ['contracts.m2_client13', 'contracts.m2_client', 'contracts.m2_posthandshake', 'contracts.m2_server'],
     'C04': ['contracts.m2_client', 'contracts.m2_getmsg', 'contracts.m2_server'],
     'C06': ['contracts.m2_client', 'contracts.m2_getmsg', 'contracts.defragmenter'],
-    'C13': ['contracts.m2_client', 'contracts.m2_posthandshake', 'contracts.m2_server'],
-    'C09': ['contracts.kdf'],
+    'C13': ['contracts.m2_client', 'contracts.m2_posthandshake', 'contracts.m2_server', 'contracts.small_extras'],
+    'C09': ['contracts.kdf', 'contracts.ciphers'],
     'C15': ['contracts.codec', 'contracts.messages_simple'],
     'C08': ['contracts.codec', 'contracts.messages_simple', 'contracts.m2_recordlayer', 'contracts.m2_getmsg', 'contracts.m2_posthandshake', 'contracts.m2_recordio', 'contracts.m2_server', 'contracts.transport'],
     'C14': ['contracts.m2_recordlayer', 'contracts.m2_getmsg', 'contracts.defragmenter', 'contracts.transport'],
     'C16': ['contracts.m2_recordlayer', 'contracts.m2_getmsg', 'contracts.m2_posthandshake', 'contracts.sendmsg'],
     'C17': ['contracts.m2_recordlayer', 'contracts.m2_getmsg', 'contracts.m2_posthandshake', 'contracts.transport'],
-    'C11': ['contracts.c12_cbc_check', 'contracts.rsa', 'contracts.m2_server'],
-    'C10': ['contracts.c12_cbc_check', 'contracts.rsa', 'contracts.kex'],
+    'C11': ['contracts.c12_cbc_check', 'contracts.rsa', 'contracts.m2_server', 'contracts.small_extras'],
+    'C10': ['contracts.c12_cbc_check', 'contracts.rsa', 'contracts.kex', 'contracts.m2_signverify'],
 }
